@@ -378,3 +378,27 @@ VARIANTS += [
     V('C02', 'twin: all(X == Y)', MI, "    if np.array_equal(X, Y):", "    if np.all(X == Y):", expect='clean'),
     V('C02', 'twin: count_nonzero of difference', MI, "    if np.array_equal(X, Y):", "    if np.count_nonzero(X - Y) == 0:", expect='clean'),
 ]
+
+# ---------------------------------------------------------------- C05
+COVF = 'outrank/algorithms/feature_ranking/ranking_cov_alignment.py'
+VARIANTS += [
+    V('C05', 'F4 reintroduced: MI-numba-3mr unhandled', IE, "    elif 'MI-numba' in heuristic:", "    elif heuristic == 'MI-numba-randomized':"),
+    V('C05', 'F5 reintroduced: no widening', COVF, "    array1 = np.asarray(array1, dtype=np.int64)\n    array2 = np.asarray(array2, dtype=np.int64)\n", ""),
+    V('C05', 'only one array widened', COVF, "    array2 = np.asarray(array2, dtype=np.int64)\n", ""),
+    V('C05', 'label swap removed', IE, "    if feature_one == args.label_column:\n        feature_one = feature_two\n        feature_two = args.label_column\n", ""),
+    V('C05', 'label forced to first side', IE, "    if feature_one == args.label_column:\n        feature_one = feature_two\n        feature_two = args.label_column\n", "    if feature_two == args.label_column:\n        feature_two = feature_one\n        feature_one = args.label_column\n"),
+    V('C05', 'second vector from first column', IE, "    vector_second = tmp_df[feature_two].values", "    vector_second = tmp_df[feature_one].values"),
+    V('C05', 'early exit for constant columns', IE, "    heuristic = args.heuristic\n    score = 0.0\n\n    if heuristic == 'MI':", "    heuristic = args.heuristic\n    score = 0.0\n    if len(np.unique(vector_second)) == 1:\n        return 0.0\n\n    if heuristic == 'MI':"),
+    V('C05', 'max-value-coverage routed to MI', IE, "score = ranking_cov_alignment.max_pair_coverage(vector_first, vector_second)", "score = sklearn_MI(vector_first, vector_second)"),
+    V('C05', 'vectors swapped for numba', IE, "score = numba_mi(vector_first, vector_second, heuristic, args.mi_stratified_sampling_ratio)", "score = numba_mi(vector_second, vector_first, heuristic, args.mi_stratified_sampling_ratio)"),
+    V('C05', 'pearson p-value', IE, "score = pearsonr(vector_first, vector_second)[0]", "score = pearsonr(vector_first, vector_second)[1]"),
+    V('C05', 'MI treats codes as continuous', IE, "vector_first.reshape(-1, 1), vector_second.reshape(-1), discrete_features=True,", "vector_first.reshape(-1, 1), vector_second.reshape(-1), discrete_features=False,"),
+    V('C05', 'score clipped after dispatch', IE, "        score = 0.0\n\n    return score", "        score = 0.0\n\n    score = max(score, 0.0)\n    return score"),
+    V('C05', 'coverage counts every other row', COVF, "    for i in range(tot_len):", "    for i in range(0, tot_len, 2):"),
+    V('C05', 'coverage key ignores second column', COVF, "        identifier = hash_pair(array1[i], array2[i])", "        identifier = hash_pair(array1[i], array1[i])"),
+    V('C05', 'coverage normalised by buckets', COVF, "    return np.max(counts) / tot_len", "    return np.max(counts) / max_size"),
+    V('C05', 'worker scores on the raw frame', CR, "return get_importances_estimate_pairwise(combination, reference_model_features, args, tmp_df=tmp_df)", "return get_importances_estimate_pairwise(combination, reference_model_features, args, tmp_df=input_dataframe)"),
+    V('C05', 'twin: equality dispatch for numba names', IE, "    elif 'MI-numba' in heuristic:", "    elif heuristic in {'MI-numba-randomized', 'MI-numba-3mr', 'MI-numba'}:", expect='clean'),
+    V('C05', 'twin: swap via tuple assignment', IE, "        feature_one = feature_two\n        feature_two = args.label_column\n", "        feature_one, feature_two = feature_two, feature_one\n", expect='clean'),
+    V('C05', 'twin: astype widening', COVF, "    array1 = np.asarray(array1, dtype=np.int64)\n", "    array1 = array1.astype(np.int64)\n", expect='clean'),
+]
